@@ -51,6 +51,17 @@ func TestC16(t *testing.T) {
 				"z_small.bin": &Entry{Kind: KFile, Data: Bytes(7, 1000)}}
 			Ev.Probe("file_with_more_blocks_than_channel_slots")
 		}
+		midFile := !many && !manyBlocks && rapid.IntRange(0, 14).Draw(rt, "midfile") == 0
+		if midFile {
+			// one file of 1-2.5 MiB whose only damage is near its end (cancellation may land anywhere
+			// before the damage is reached), optionally followed by a small intact file
+			sz := rapid.IntRange(1100, 2500).Draw(rt, "midkib")*KiB + rapid.IntRange(0, 3).Draw(rt, "midodd")*4099
+			signed = Tree{"m_mid.bin": &Entry{Kind: KFile, Data: Bytes(rapid.Uint64().Draw(rt, "midseed"), sz)}}
+			if rapid.Bool().Draw(rt, "midsecond") {
+				signed["z_after.bin"] = &Entry{Kind: KFile, Data: Bytes(3, 5000)}
+			}
+			Ev.Probe("single_large_file_damaged_near_its_end")
+		}
 		dmode := rapid.IntRange(0, 6).Draw(rt, "damage") // 0 none, 1 only last file (first byte), 6 only last file (last byte), 2 everything deleted, else faults
 		damaged := signed
 		var applied []Fault
@@ -65,6 +76,9 @@ func TestC16(t *testing.T) {
 		case dmode == 6 && len(files) > 0 && len(signed[files[len(files)-1]].Data) > 0:
 			last := files[len(files)-1]
 			damaged, applied = ApplyFaults(signed, []Fault{{Kind: "flip", Path: last, Off: len(signed[last].Data) - 1}})
+		case midFile:
+			n := len(signed["m_mid.bin"].Data)
+			damaged, applied = ApplyFaults(signed, []Fault{{Kind: "flip", Path: "m_mid.bin", Off: n - 1 - rapid.IntRange(0, n/8).Draw(rt, "midflip")}})
 		case manyBlocks:
 			// damage in the first block of the big file (and sometimes its last)
 			damaged, applied = ApplyFaults(signed, []Fault{{Kind: "flip", Path: "a_big.bin", Off: rapid.IntRange(0, 100).Draw(rt, "bigflip")}})
@@ -100,6 +114,9 @@ func TestC16(t *testing.T) {
 			if strings.HasPrefix(cmode, "heal") && rapid.Bool().Draw(rt, "cancelmidheal") {
 				// healing runs are short: aim inside them
 				cancelAt = rapid.IntRange(8, 110).Draw(rt, "cancelstep4")
+			}
+			if midFile && rapid.Bool().Draw(rt, "cancelmidfile") {
+				cancelAt = rapid.IntRange(10, 400).Draw(rt, "cancelstep5")
 			}
 			if many && rapid.Bool().Draw(rt, "cancellate") {
 				cancelAt = rapid.IntRange(400, 20000).Draw(rt, "cancelstep3")
